@@ -53,6 +53,7 @@ MECH = {
     "itemsep": "C30/item-bindings-joined-with-itemseparator",
     "boolprefix": "C30/array-prefix-dropped-when-no-item-emits",
     "arrorder": "C30/unbound-array-items-ordered-by-name",
+    "dquote": "C30/bound-items-quoted-twice-with-explicit-shellquote",
 }
 
 
@@ -219,10 +220,27 @@ def composite_candidates(tool, job) -> set:
     return cands
 
 
+def twice_quoted_candidates(tool, job) -> set:
+    """Tokens of bound array items below an array binding that says `shellQuote: true` explicitly (ShellCommandRequirement)."""
+    cands = set()
+    if "ShellCommandRequirement" not in tool["requirements"]:
+        return cands
+    for name, schema in tool["inputs"].items():
+        t, b, v = schema.get("type"), schema.get("inputBinding"), job.get(name)
+        if isinstance(t, dict) and t.get("type") == "array" and isinstance(t.get("items"), str) and "inputBinding" in t \
+                and isinstance(b, dict) and b.get("shellQuote") is True and "itemSeparator" not in b and v:
+            ib = t["inputBinding"]
+            for x in _strs(v):
+                cands.add(ib["prefix"] + x if ("prefix" in ib and ib.get("separate", True) is False) else x)
+    return {c for c in cands if shlex.quote(c) != c}
+
+
 def applicable(case, ref) -> list[str]:
     """Mechanisms whose syntactic trigger is present in the tool."""
     tool, job = case["tool"], case["job"]
     m = []
+    if twice_quoted_candidates(tool, job) & set(ref.get("argv") or []):
+        m.append("dquote")
     if ref.get("env"):
         if any(re.search(r'[$`"\\]', v) for v in ref["env"].values()):
             m.append("env")
@@ -256,6 +274,9 @@ def predict(sh: Shard, case, ref, mechs: tuple) -> dict:
     tool, job = case["tool"], case["job"]
     pred = {k: v for k, v in ref.items()}
     argv = list(ref["argv"])
+    if "dquote" in mechs:
+        twice = twice_quoted_candidates(tool, job)
+        argv = [shlex.quote(a) if a in twice else a for a in argv]
     if "boolarr" in mechs:
         name = bound_inputs(tool)[0]
         argv = argv + [str(x) for x in job[name]]
@@ -321,45 +342,55 @@ def same(pred: dict, sf: dict) -> bool:
     return all(pred.get(k) == sf.get(k) for k in keys)
 
 
-def unbound_array_blocks(tool, job):
-    """Token blocks of inputs that have no inputBinding themselves but whose array items do."""
-    blocks = []
+def unbound_array_tokens(tool, job):
+    """For every input that has no inputBinding itself but whose array type carries bindings at some
+    nesting level (bound items, bound inner arrays): the set of token texts that input can put on the
+    command line (items, prefixes, prefix+item, itemSeparator joins)."""
+    out = []
     for name, schema in tool["inputs"].items():
-        t = schema.get("type")
-        if "inputBinding" in schema or not (isinstance(t, dict) and t.get("type") == "array" and "inputBinding" in t
-                                             and isinstance(t.get("items"), str) and t["items"] != "boolean"):
+        t, v = schema.get("type"), job.get(name)
+        if "inputBinding" in schema or not (isinstance(t, dict) and t.get("type") == "array") or not v \
+                or "inputBinding" not in json.dumps(t) or '"items": "boolean"' in json.dumps(t):
             continue
-        ib, block = t["inputBinding"], []
-        for x in job.get(name) or []:
-            v = "@DIR@/" + os.path.basename(x["path"]) if isinstance(x, dict) else str(x)
-            if "prefix" in ib and ib.get("separate", True):
-                block += [ib["prefix"], v]
-            elif "prefix" in ib:
-                block += [ib["prefix"] + v]
-            else:
-                block += [v]
-        if block:
-            blocks.append(block)
-    return blocks
+        cands = set(_strs(v))
+        prefixes, seps = set(), set()
+
+        def walk(tt):
+            if isinstance(tt, dict):
+                ib = tt.get("inputBinding") or {}
+                if "prefix" in ib:
+                    prefixes.add(ib["prefix"])
+                if "itemSeparator" in ib:
+                    seps.add(ib["itemSeparator"])
+                walk(tt.get("items"))
+
+        walk(t)
+
+        def lists(x):
+            if isinstance(x, list):
+                yield x
+                for y in x:
+                    yield from lists(y)
+
+        for sep in seps:
+            for lst in lists(v):
+                flat = list(_strs(lst))
+                if flat:
+                    cands.add(sep.join(flat))
+        cands |= prefixes | {p + c for p in prefixes for c in list(cands)}
+        cands.discard("")
+        if cands:
+            out.append(cands)
+    return out
 
 
-def moved_block(a: list, b: list, block: list) -> bool:
-    """b is a permutation of a that only re-places the tokens of `block` (the array's item tokens, kept in
-    their own order); every other token keeps its relative order."""
+def moved_block(a: list, b: list, cands: set) -> bool:
+    """b is a permutation of a in which only the tokens of one unbound array (`cands`) are placed
+    elsewhere: those tokens keep their own order and all the other tokens keep theirs."""
     if a == b or sorted(a) != sorted(b):
         return False
-
-    def without(seq):
-        rest, k = [], 0
-        for tok in seq:
-            if k < len(block) and tok == block[k]:
-                k += 1
-            else:
-                rest.append(tok)
-        return rest if k == len(block) else None
-
-    ra, rb = without(a), without(b)
-    return ra is not None and ra == rb
+    return [t for t in a if t in cands] == [t for t in b if t in cands] and \
+        [t for t in a if t not in cands] == [t for t in b if t not in cands] and any(t in cands for t in a)
 
 
 def explain(sh: Shard, case, ref, sf):
@@ -371,7 +402,7 @@ def explain(sh: Shard, case, ref, sf):
                 return mechs
     # the items of an array that is not bound itself are placed by (position, name) instead of before the named inputs
     if sf.get("status") == "ok" and "ShellCommandRequirement" not in case["tool"]["requirements"]:
-        blocks = unbound_array_blocks(case["tool"], case["job"])
+        blocks = unbound_array_tokens(case["tool"], case["job"])
         nonargv = [m for m in app if m in ("env", "stderr")]
         for n in range(0, len(nonargv) + 1):
             for mechs in itertools.combinations(nonargv, n):
@@ -544,7 +575,22 @@ def fixed_corpus(probe):
             t["outputs"]["se"] = {"type": "stderr"}
         return {"kind": "tool", "class": "R", "fixed": True, "tool": t, "job": job}
 
-    return [
+    def trig(inputs, job):
+        c = tool(inputs, job)
+        c["class"] = "T"
+        return c
+
+    directed = [
+        # C30/unbound-array-items-ordered-by-name: bound items / bound inner arrays of an input without a binding of its own
+        trig({"k4": {"type": {"type": "array", "items": "int", "inputBinding": {}}}, "b3": {"type": "string", "inputBinding": {}},
+              "z1": {"type": "int", "inputBinding": {"prefix": "--long"}}}, {"k4": [5, 6], "b3": "#c", "z1": 0}),
+        trig({"m2": {"type": {"type": "array", "items": {"type": "array", "items": "string", "inputBinding": {"itemSeparator": ":"}}}},
+              "i0": {"type": "string", "inputBinding": {"prefix": "-I"}}}, {"m2": [[], ["plain", "under_score"]], "i0": "be-ta"}),
+        # C30/bound-items-quoted-twice-with-explicit-shellquote
+        dict(tool({"z1": {"type": {"type": "array", "items": "string", "inputBinding": {"prefix": "--long"}}, "inputBinding": {"shellQuote": True}}},
+                  {"z1": ["{a,b}", "a b", "abc"]}, shell=True), **{"class": "T"}),
+    ]
+    return directed + [
         # equal positions: inputs sort by name (document order differs), arguments by index, prefix/separate
         tool({"z": {"type": "string", "inputBinding": {"position": 1}}, "a": {"type": "string", "inputBinding": {"position": 1}},
               "m": {"type": "string", "inputBinding": {"position": 1, "prefix": "-c"}}}, {"z": "zz", "a": "it's", "m": "a b"},
